@@ -114,12 +114,20 @@ Shutdown(m) ==
     /\ queue' = [queue EXCEPT ![m] = <<>>]
     /\ held' = [held EXCEPT ![m] = NoCmd]
 
+(* the running DELETE shuts its mailbox down (Mailbox.delete -> shutdown): a  *)
+(* step of its own, before the command completes - the released commands may *)
+(* wake up (and be refused) while the DELETE is still running                *)
+ShutdownBy(c) ==
+    /\ pc[c] = "run" /\ KindOf(c) = "DELETE" /\ ~completed[c] /\ ~deleted[MbOf(c)]
+    /\ Shutdown(MbOf(c))
+    /\ UNCHANGED <<pc, ph, exc, completed, executing, result, replies>>
+
 (* the body of the current phase finishes *)
 Finish(c) ==
     /\ pc[c] = "run"
+    /\ KindOf(c) = "DELETE" => deleted[MbOf(c)]
     /\ completed' = [completed EXCEPT ![c] = TRUE]
-    /\ IF KindOf(c) = "DELETE" THEN Shutdown(MbOf(c))
-       ELSE UNCHANGED <<deleted, mpc, ready, queue, held>>
+    /\ UNCHANGED <<deleted, mpc, ready, queue, held>>
     /\ IF LastPhase(c) THEN
             /\ Reply(c, "OK")
             /\ UNCHANGED <<ph, exc>>
@@ -146,7 +154,13 @@ NextPhase(c) ==
 
 (* the executing list is cleaned of completed phases whenever the task looks *)
 (* (a command in a later phase on another mailbox is `completed` here)       *)
-Live(m) == {d \in executing[m] : pc[d] = "run" /\ MbOf(d) = m /\ ~completed[d]}
+(* A phase counts from the instant it is admitted (appended to the list, its  *)
+(* `ready` set), not from the instant its task wakes up: between the two the *)
+(* code's would_conflict already sees it.  (Found when the model was bound   *)
+(* to recorded steps: with pc = "run" here the model admitted an EXPUNGE     *)
+(* next to a FETCH that had been admitted but had not woken yet.)            *)
+Live(m) == {d \in executing[m] : pc[d] \in {"wait", "run"} /\ ready[d] /\ ~exc[d]
+                                   /\ MbOf(d) = m /\ ~completed[d]}
 
 Get(m) ==
     /\ mpc[m] = "get" /\ queue[m] # <<>>
@@ -160,35 +174,58 @@ Resolve(m) ==
     /\ mpc[m] = "resolve"
     /\ LET c == held[m] IN
        IF Cmds[c].bad /\ ph[c] = 1 THEN
-            /\ exc' = [exc EXCEPT ![c] = TRUE]
-            /\ ready' = [ready EXCEPT ![c] = TRUE]
-            /\ held' = [held EXCEPT ![m] = NoCmd]
-            /\ mpc' = [mpc EXCEPT ![m] = "get"]
+            \/ /\ exc' = [exc EXCEPT ![c] = TRUE]
+               /\ ready' = [ready EXCEPT ![c] = TRUE]
+               /\ held' = [held EXCEPT ![m] = NoCmd]
+               /\ mpc' = [mpc EXCEPT ![m] = "get"]
+            \* the set is still valid now and stops being so while the command waits
+            \* (the message it names is expunged): the second resolution fails, below
+            \/ /\ mpc' = [mpc EXCEPT ![m] = "wait"]
+               /\ UNCHANGED <<exc, ready, held>>
        ELSE /\ mpc' = [mpc EXCEPT ![m] = "wait"]
             /\ UNCHANGED <<exc, ready, held>>
     /\ UNCHANGED <<pc, ph, completed, queue, executing, deleted, result, replies>>
 
 (* command_can_proceed: poll until no conflict; then (resync and) admit *)
-Admit(m) ==
+(* the wait is over, the set is resolved again against the mailbox as it is  *)
+(* now (management_task, second msg_set_to_msg_seq_set) and that fails: the  *)
+(* exception is handed to the command, which is not admitted                 *)
+ReResolveFailWith(m, hasdel) ==
     /\ mpc[m] = "wait"
     /\ LET c == held[m] IN
-       /\ ~Conflicts(c, Live(m), m)
+       /\ Cmds[c].bad /\ ph[c] = 1
+       /\ ~ConflictsRec(Rec(c), {Rec(d) : d \in Live(m)}, hasdel)
+       /\ exc' = [exc EXCEPT ![c] = TRUE]
+       /\ ready' = [ready EXCEPT ![c] = TRUE]
+    /\ held' = [held EXCEPT ![m] = NoCmd]
+    /\ mpc' = [mpc EXCEPT ![m] = "get"]
+    /\ UNCHANGED <<pc, ph, completed, queue, executing, deleted, result, replies>>
+ReResolveFail(m) == ReResolveFailWith(m, HasDeleted[m])
+
+AdmitWith(m, hasdel) ==
+    /\ mpc[m] = "wait"
+    /\ ~(Cmds[held[m]].bad /\ ph[held[m]] = 1)
+    /\ LET c == held[m] IN
+       /\ ~ConflictsRec(Rec(c), {Rec(d) : d \in Live(m)}, hasdel)
        /\ executing' = [executing EXCEPT ![m] = Live(m) \cup {c}]
        /\ ready' = [ready EXCEPT ![c] = TRUE]
     /\ held' = [held EXCEPT ![m] = NoCmd]
     /\ mpc' = [mpc EXCEPT ![m] = "get"]
     /\ UNCHANGED <<pc, ph, exc, completed, queue, deleted, result, replies>>
 
+Admit(m) == AdmitWith(m, HasDeleted[m])
+
 Terminated == \A c \in Cmd : pc[c] = "replied"
 
 Next ==
-    \/ \E c \in Cmd : Enqueue(c) \/ Wake(c) \/ Finish(c) \/ NextPhase(c)
-    \/ \E m \in Mbox : Get(m) \/ Resolve(m) \/ Admit(m)
+    \/ \E c \in Cmd : Enqueue(c) \/ Wake(c) \/ ShutdownBy(c) \/ Finish(c) \/ NextPhase(c)
+    \/ \E m \in Mbox : Get(m) \/ Resolve(m) \/ Admit(m) \/ ReResolveFail(m)
     \/ (Terminated /\ UNCHANGED vars)
 
 Fairness ==
     /\ \A c \in Cmd : WF_vars(Enqueue(c)) /\ WF_vars(Wake(c)) /\ WF_vars(Finish(c)) /\ WF_vars(NextPhase(c))
-    /\ \A m \in Mbox : WF_vars(Get(m)) /\ WF_vars(Resolve(m)) /\ WF_vars(Admit(m))
+                      /\ WF_vars(ShutdownBy(c))
+    /\ \A m \in Mbox : WF_vars(Get(m)) /\ WF_vars(Resolve(m)) /\ WF_vars(Admit(m)) /\ WF_vars(ReResolveFail(m))
 
 Spec == Init /\ [][Next]_vars /\ Fairness
 
